@@ -73,6 +73,27 @@ def run(ctx):
             return lines
         vlib.selftest_trace(ctx, "WritePathTrace.tla", "WritePathTrace.cfg", tr, swap)
         vlib.selftest_trace(ctx, "WritePathTrace.tla", "WritePathTrace.cfg", tr, drop)
+    # 3a. recorded executions of OTHER drivers of the real write path: the repository's own tests (fsync on) and a concurrent
+    # workload of writers, readers and the maintenance loop over one store run with --skip-fsync (WritePath.tla's SkipFsync
+    # mode); every active fraction's life, cut into segments of 24 bulks, must be a behaviour of WritePath.tla
+    from checks import _suite, _wpsuite
+    r = vlib.run_tlc(ctx, "WritePath.tla", "WritePath_skipfsync.cfg", tags=("NOCASE",), timeout=600)
+    if r.violated:
+        raise vlib.Infra("TLC: %s violated in WritePath.tla (SkipFsync)" % r.violated)
+    vlib.require_tlc_ok(r, "WritePath skip-fsync")
+    pkgs = ["./fracmanager/", "./storeapi/", "./frac/"] if quick else ["./fracmanager/", "./storeapi/", "./frac/", "./proxyapi/", "./tests/integration_tests/", "./cmd/..."]
+    sfiles = _suite.record(ctx, pkgs)
+    ht = vlib.build_driver("handtrace")
+    for i in range(2 if quick else 10):
+        d = os.path.join(ctx.scratch, "wp-handtrace-%d" % i)
+        os.makedirs(d)
+        rc, outs, err = vlib.run_driver(ht, ["-bulks", "150", "-seed", str(ctx.seed * 10 + i), "-total", "0", "-writers", "4"] + (["-skip"] if i % 2 else []),
+                                        timeout=1200, ok_codes=range(0, 256), env={"VERIF_TRACE_DIR": d, "LOG_LEVEL": "error"})
+        if rc != 0 or not any(o.get("summary") for o in outs):
+            ctx.violation("writepath:workload:crash", {"stderr": err[-2000:]}, what="the store died during a concurrent ingest workload: " + err[-300:])
+        sfiles += [os.path.join(d, f) for f in sorted(os.listdir(d))]
+    nseg, nev = _wpsuite.validate(ctx, sfiles, "suite", "writepath:suitetrace")
+    ctx.cov["suite_writepath_traces"] = {"segments": nseg, "events": nev, "packages": pkgs}
     # 3b. long behaviours in the same action alphabet (hundreds of acknowledged bulks with a size profile: one very large
     # bulk, >200 very small ones, again; one or two index workers; restarts in between): the per-worker buffers that
     # outlive a bulk and are re-sized from statistics over the last 200 bulks
